@@ -14,6 +14,7 @@ def _k1():
         ('add', 'lo'),
         ('rm', 0), ('rm', 1), ('prio', 0, 100), ('prio', 1, 1), ('prio', 2, 0),
         ('down', 's0'), ('up', 's0'), ('down', 's1'), ('up', 's1'),
+        ('frz', 's0', 0), ('frz', 's0', -1),
         ('tick', 40), ('noop',),
     )
     return cfg
@@ -41,6 +42,36 @@ def _k6():
     cfg['events'] = cellcfg.ev(
         ('add', 'l1'), ('add', 'lh'), ('add', 'big'), ('rm', 0),
         ('prio', 0, 100), ('tick', day // 2), ('tick', day), ('noop',),
+    )
+    return cfg
+
+
+def _k8():
+    """Reboot buckets: three servers up for 18 days compete for the last
+    three reboot dates; a presence flap while another server registers moves
+    a server's reboot date to before the end of a lease it already granted."""
+    day = 24 * 3600
+    cfg = cellcfg.k5()
+    cfg['monitors'] = [cellmon.mon_c07]
+    cfg['idgroups'] = {}
+    cfg['allow_nocycle'] = False
+    cfg['servers'] = {
+        's0': {'parent': 'rack:0', 'age': 18 * day,
+               'variants': [{'cap': [10, 10, 10]}]},
+        's1': {'parent': 'rack:1', 'age': 18 * day,
+               'variants': [{'cap': [10, 10, 10]}]},
+        's2': {'parent': 'rack:0', 'age': 18 * day, 'initial': False,
+               'variants': [{'cap': [10, 10, 10]}]},
+    }
+    cfg['templates'] = {
+        'l40': {'prio': 50, 'demand': [3, 3, 3], 'aff': 'a',
+                'lease': 40 * 3600, 'ret': 7200},
+        'big': {'prio': 100, 'demand': [20, 20, 20], 'aff': 'b'},
+    }
+    cfg['max_apps'] = 3
+    cfg['events'] = cellcfg.ev(
+        ('add', 'l40'), ('add', 'big'), ('rm', 0),
+        ('down', 's0'), ('up', 's0'), ('sadd', 's2', 0), ('noop',),
     )
     return cfg
 
@@ -84,9 +115,9 @@ def _k3():
 def configs(ctx):
     if ctx.quick:
         return [('K1', _k1(), 4, 1), ('K3', _k3(), 4, 0), ('K6', _k6(), 5, 0),
-                ('K7', _k7(), 5, 0)]
+                ('K7', _k7(), 5, 0), ('K8', _k8(), 5, 0)]
     return [('K1', _k1(), 6, 1), ('K3', _k3(), 7, 0), ('K6', _k6(), 8, 0),
-            ('K7', _k7(), 7, 0)]
+            ('K7', _k7(), 7, 0), ('K8', _k8(), 8, 0)]
 
 
 RULE = ('BFS over histories producing capacity pressure; per cycle the queue '
